@@ -69,6 +69,7 @@ func checkC16(r *core.Run) {
 	c16RecordFromZero(r, p, "R-C16-layout")
 	noAppendOnPositioned(r, p, "R-C16-position", "lib/chain", 2)
 	c16CacheWithinIndex(r, p, "R-C16-layout")
+	c16EvictOnlyWritten(r, p, "R-C16-flags")
 }
 
 func c16Layouts(r *core.Run, p *core.Program, wo, lb *ssa.Function) {
@@ -518,22 +519,8 @@ func c16Locks(r *core.Run, p *core.Program) {
 		}
 	}
 	r.Check(len(badIO) == 0 && nIO >= 6, rule, "file-io", "-", fmt.Sprintf("%d operations on the data/index files under the disk mutex", nIO), strings.Join(badIO, "; "))
-	// setBlockFlag: remember position, ReadAt/WriteAt at the record, restore position
 	sf := p.Func("lib/chain.(*BlockDB).setBlockFlag")
-	c19Order(r, p, rule, "flag-update/restores-position", sf, []c19Ev{
-		evCall("remember the append position", "(*os.File).Seek", -1),
-		evCall("read the flag byte", "(*os.File).ReadAt", 2, "field:lib/chain.oneBl.ipos"),
-		evCall("write the flag byte", "(*os.File).WriteAt", 2, "field:lib/chain.oneBl.ipos"),
-		{"restore the append position", func(i ssa.Instruction) bool {
-			c, ok := i.(ssa.CallInstruction)
-			if !ok || an.CallName(c) != "(*os.File).Seek" {
-				return false
-			}
-			// the remembered absolute position, applied as an absolute position (whence 0)
-			wh, _ := an.ConstOf(c.Common().Args[2])
-			return an.Atoms(c.Common().Args[1])["call:(*os.File).Seek#0"] && wh != nil && wh.Sign() == 0
-		}},
-	})
+	c16FlagUpdateOrder(r, p, rule)
 	// the in-memory mark does not depend on the record being on disk already: a block marked trusted while its
 	// write is still queued must carry the mark into the record written later (writeOne copies rec.trusted)
 	if sf != nil {
@@ -577,23 +564,7 @@ func c16Locks(r *core.Run, p *core.Program) {
 
 func c16Flags(r *core.Run, p *core.Program) {
 	const rule = "R-C16-flags"
-	// eviction only of written blocks
-	ac := p.Func("lib/chain.(*BlockDB).addToCache")
-	okEv := false
-	if ac != nil {
-		for _, c := range an.CallsTo(ac, false, "builtin.delete") {
-			_ = c
-		}
-		// the candidate assignment is controlled by ipos != -1
-		for _, b := range ac.Blocks {
-			if iff, ok := b.Instrs[len(b.Instrs)-1].(*ssa.If); ok {
-				if m, _ := an.MatchCmpConst(-1, token.NEQ, "field:lib/chain.oneBl.ipos")(iff); m {
-					okEv = true
-				}
-			}
-		}
-	}
-	r.Check(okEv, rule, "cache/unwritten-not-evicted", "-", "a block that is not on disk yet (ipos == -1) is never chosen for eviction", "the cache eviction does not skip blocks that are not written to disk yet: such a block would be unreadable until flushed")
+	// eviction only of written blocks: c16EvictOnlyWritten (the candidate's own record says it is on disk)
 	// setBlockFlag: trusted only for the trusted flag
 	sf := p.Func("lib/chain.(*BlockDB).setBlockFlag")
 	okT := false
@@ -1353,4 +1324,116 @@ func c16CacheWithinIndex(r *core.Run, p *core.Program, rule string) {
 		}
 	}
 	r.Check(n >= 1, rule, "cache-within-index/sites", "-", fmt.Sprintf("%d deletions from the index", n), "no deletion from the block index found")
+}
+
+// c16EvictOnlyWritten: a block handed to the store is readable until it is written: before that the cache
+// holds its only copy.  The eviction in addToCache may therefore pick only a cached block whose index record
+// says it is on disk (ipos != -1) - and the record tested must be the candidate's own (looked up by the key
+// that is then deleted), not that of some other block such as the one being inserted.
+func c16EvictOnlyWritten(r *core.Run, p *core.Program, rule string) {
+	n := 0
+	for _, fn := range p.ModuleFuncs() {
+		if fn.Pkg == nil || !strings.HasSuffix(fn.Pkg.Pkg.Path(), "lib/chain") {
+			continue
+		}
+		var dels []*ssa.Call
+		delsIndex := false
+		an.Instrs(fn, func(i ssa.Instruction) {
+			c, ok := i.(*ssa.Call)
+			if !ok {
+				return
+			}
+			b, ok := c.Call.Value.(*ssa.Builtin)
+			if !ok || b.Name() != "delete" || len(c.Call.Args) != 2 {
+				return
+			}
+			switch f, _ := an.FieldOf(loadAddr(c.Call.Args[0])); f {
+			case "lib/chain.BlockDB.blockIndex":
+				delsIndex = true
+			case "lib/chain.BlockDB.cache":
+				dels = append(dels, c)
+			}
+		})
+		if delsIndex {
+			continue // the block is being removed from the store altogether
+		}
+		onDisk := func(e ssa.Value, conds []an.DomCond) bool {
+			want := "blockIndex[" + an.Expr(e) + "]"
+			for _, dc := range conds {
+				x, y, rel, isCmp := dc.Cmp()
+				if !isCmp || !strings.Contains(an.Expr(x), want) || !strings.HasSuffix(an.Expr(x), ".ipos") {
+					continue
+				}
+				if c, isC := an.ConstOf(y); isC && ((rel == token.NEQ && c.Int64() == -1) || (rel == token.GEQ && c.Sign() == 0) || (rel == token.GTR && c.Int64() == -1)) {
+					return true
+				}
+			}
+			return false
+		}
+		for k, d := range dels {
+			n++
+			bad := ""
+			seen := map[ssa.Value]bool{}
+			var walk func(v ssa.Value)
+			walk = func(v ssa.Value) {
+				ph, ok := v.(*ssa.Phi)
+				if !ok || seen[v] {
+					return
+				}
+				seen[v] = true
+				for ei, e := range ph.Edges {
+					if _, isC := e.(*ssa.Const); isC {
+						continue
+					}
+					if _, isPhi := e.(*ssa.Phi); isPhi {
+						walk(e)
+						continue
+					}
+					if !onDisk(e, an.EdgeConds(ph.Block().Preds[ei], ph.Block())) {
+						bad = fmt.Sprintf("the cached block with key %s is chosen for eviction at %s without a test that its own index record is on disk (ipos != -1): a block still waiting to be written can be dropped from the cache and is then unreadable", an.Expr(e), p.Pos(ph.Pos()))
+					}
+				}
+			}
+			key := d.Call.Args[1]
+			if ld, isLoad := key.(*ssa.UnOp); isLoad && ld.Op == token.MUL {
+				// the candidate lives in a variable: every assignment of a cache key to it is guarded
+				an.Instrs(fn, func(i ssa.Instruction) {
+					st, ok := i.(*ssa.Store)
+					if !ok || st.Addr != ld.X {
+						return
+					}
+					if _, isC := st.Val.(*ssa.Const); isC {
+						return
+					}
+					if !onDisk(st.Val, an.DomConds(st.Block())) {
+						bad = fmt.Sprintf("the cached block with key %s is chosen for eviction at %s without a test that its own index record is on disk (ipos != -1): a block still waiting to be written can be dropped from the cache and is then unreadable", an.Expr(st.Val), p.Pos(st.Pos()))
+					}
+				})
+			}
+			walk(key)
+			r.Check(bad == "", rule, fmt.Sprintf("evict-only-written/%s#%d", core.FuncName(fn), k+1), p.Pos(d.Pos()), "only blocks whose own index record is on disk are evicted", bad)
+		}
+	}
+	r.Check(n >= 1, rule, "evict-only-written/sites", "-", fmt.Sprintf("%d eviction(s) from the block cache", n), "no eviction from the block cache found")
+}
+
+// c16FlagUpdateOrder: changing a flag byte of a stored record: remember the append position, read and write
+// the byte at the record's own position, restore the append position (shared with C07: a flag update that
+// reads or writes at the append position corrupts the record being appended next / after a crash).
+func c16FlagUpdateOrder(r *core.Run, p *core.Program, rule string) {
+	sf := p.Func("lib/chain.(*BlockDB).setBlockFlag")
+	c19Order(r, p, rule, "flag-update/restores-position", sf, []c19Ev{
+		evCall("remember the append position", "(*os.File).Seek", -1),
+		evCall("read the flag byte", "(*os.File).ReadAt", 2, "field:lib/chain.oneBl.ipos"),
+		evCall("write the flag byte", "(*os.File).WriteAt", 2, "field:lib/chain.oneBl.ipos"),
+		{"restore the append position", func(i ssa.Instruction) bool {
+			c, ok := i.(ssa.CallInstruction)
+			if !ok || an.CallName(c) != "(*os.File).Seek" {
+				return false
+			}
+			// the remembered absolute position, applied as an absolute position (whence 0)
+			wh, _ := an.ConstOf(c.Common().Args[2])
+			return an.Atoms(c.Common().Args[1])["call:(*os.File).Seek#0"] && wh != nil && wh.Sign() == 0
+		}},
+	})
 }
